@@ -129,7 +129,7 @@ def gen_api(tier, seed):
 def suites(tier, seed):
     return [Suite("consumers-at-api", "api", lambda: gen_api(tier, seed), monitor=api_monitor, nontrivial=lambda c, il: any(o.startswith("cons ") for o in c.ops), canon=apigen.canon, shards=4, timeout=60,
                   rule="public API over the real queue ends: consumers created, cancelled, cancelled twice, dropped, dropped by a panic unwinding through their owner: one Basic.Cancel per live consumer, none for a cancelled one; exact diff against the Lean Api model"),
-            Suite("idle-consumer-backlog", "machine", lambda: [mg.backlog_cases(Rng(seed + 31), "consumer", 70000)], monitor=monitor, nontrivial=lambda c, il: True, canon=mg.canon_nondet, shrink=False, compare=(tier != "quick"), timeout=600,
+            Suite("idle-consumer-backlog", "machine", lambda: [mg.backlog_cases(Rng(seed + 31), "consumer", 70000)] if tier == "quick" else [mg.backlog_cases(Rng(seed + 31), "consumer", 70000, prefix="big"), mg.backlog_cases(Rng(seed + 32), "consumer", 12000)], monitor=monitor, nontrivial=lambda c, il: True, canon=mg.canon_nondet, shrink=False, compare=(tier != "quick"), canon_skip_model=("big",), timeout=600,
                   rule="a consumer with 70 000 unread deliveries is cancelled by the server: after the 70 000 deliveries exactly one terminal message, then disconnected (quick: monitor only; thorough: also diffed against the model)"),
             Suite("sessions", "machine", lambda: gen(tier, seed), monitor=monitor, nontrivial=nontrivial, canon=mg.canon_nondet, candidate_ok=mg.candidate_ok,
                   rule="random sessions biased to consumer lifecycles: consume, deliveries, client cancel (with deliveries racing the CancelOk), server cancel (nowait t/f), channel close by either side, connection close by either side, on 1-6 channels with several consumers each")]
